@@ -345,6 +345,15 @@ class BGP(protocol.Protocol):
         """
         try:
             reactor.callFromThread(self.write_tcp_thread, msg)
+            # message statistic: the binary data may carry several messages
+            offset = 0
+            while offset + bgp_cons.HDR_LEN <= len(msg):
+                length, msg_type = struct.unpack('!HB', msg[offset + 16:offset + bgp_cons.HDR_LEN])
+                if msg_type == bgp_cons.MSG_UPDATE:
+                    self.msg_sent_stat['Updates'] += 1
+                if length < bgp_cons.HDR_LEN:
+                    break
+                offset += length
             return True
         except Exception as e:
             LOG.error(e)
